@@ -120,6 +120,17 @@ def handleCodec (j : J) : Except String J := do
   pure (J.mk [("pack", optBytes packed), ("spec", spec), ("dec", dec), ("hdr", hdr), ("len", lenValue ci.lenL tailBytes r),
               ("flags", J.arr (ci.flags.map J.str))])
 
+/-- {"op":"spec","cls":C,"rec":R}: R encoded with the layout the standard gives class C (independent of the generated
+    layout of C itself; nested elements use the generated element codecs) -/
+def handleSpec (j : J) : Except String J := do
+  let c ← j.string "cls"
+  match Spec.OF10.table.lookup c with
+  | none => pure (J.mk [("spec", J.str "no-spec")])
+  | some L =>
+    match recFromJ depth L (← j.get "rec") with
+    | .ok rs => pure (J.mk [("spec", optBytes (encode codec L rs))])
+    | .error e => pure (J.mk [("spec", J.str ("spec layout does not take this record: " ++ e))])
+
 def handleDecode (j : J) : Except String J := do
   let c ← j.string "cls"
   let ci ← match cls c with
@@ -213,6 +224,7 @@ def handle (j : J) : Except String J := do
   let op ← j.string "op"
   if op = "codec" then handleCodec j
   else if op = "decode" then handleDecode j
+  else if op = "spec" then handleSpec j
   else if op = "packet_out" then handlePacketOut j
   else if op = "match" then handleMatch j
   else if op = "nxm" then handleNxm j
